@@ -22,7 +22,7 @@ rows = ["| rule | engine | instances (floor) | what it decides | seeded changes 
 for p in sorted(glob.glob(os.path.join(base, 'evidence/C*.json'))):
     e = json.load(open(p))
     for r in e['coverage']['rules']:
-        if r['id'].endswith('CTRL') or r['id'].endswith('PANIC') or r['id'].endswith('-T1'):
+        if r['id'].endswith('CTRL') or r['id'].endswith('PANIC') or r['id'].endswith('-T1') or r['id'].endswith('-A1'):
             continue
         rows.append("| %s | %s | %d (%d) | %s | %s |" % (r['id'], r['engine'], r['instances'], r['min_instances'], r['doc'].replace('|', '/'), ' '.join(sorted(by_rule.get(r['id'], [])))))
 ruletable = "\n".join(rows)
